@@ -1,3 +1,377 @@
-/-! Model for property C08 (core Lean only; no Mathlib). -/
+/-! Model for property C08 (a TEBD step is the ordered product of its gates).  Core Lean only.
+
+Three pieces of `/repo` are modelled, each as the code is written:
+
+* (i)  `exponentiateSplitting` ↔ `TrotterSplitting.exponentiate_splitting`
+       (`pytreenet/time_evolution/trotter.py`): the loop `extend(swaps_before); append(gate);
+       extend(swaps_after)` over the Trotter steps, as a function on lists.
+* (ii) `swapGate` ↔ `common_operators.swap_gate`: the double loop that writes a one at `(i, j)` when
+       the base-`d` digits of `i` and `j` are exchanged (`int(i / d)` is the integer quotient for
+       every index that fits a double exactly).
+* (iii) the leg bookkeeping of `TEBD._apply_one_trotter_step_two_site`
+       (`pytreenet/time_evolution/tebd.py`): `legsBeforeCombination` ↔
+       `TreeTensorNetwork.legs_before_combination`, `contractNodes` ↔ `contract_nodes` (with
+       `_data_contraction`, `_create_contracted_node`), `absorbIntoOpenLegs` ↔
+       `absorb_into_open_legs`, `splitNode` ↔ `split_nodes` as used by `split_node_svd` (with
+       `LegSpecification.find_leg_values`, `_set_in_parent_leg_after_split`, `_find_in_children`,
+       `_set_out_parent_leg_after_split`, `_find_out_children`), on top of the `Node` methods
+       `open_leg_to_parent`, `open_legs_to_children`, `exchange_open_leg_ranges`
+       (`pytreenet/core/node.py`).
+
+A node is modelled by its parent, its ordered children and the list of *leg labels* in the node's
+own (permuted) order: the library stores a raw tensor plus `_leg_permutation`; every method above
+pops / inserts entries of the permutation, which acts on the label list in exactly the same way
+(labels are pairwise distinct, as permutation entries are).  `tensordot` returns the remaining legs of
+the first operand followed by those of the second, and the pairs it binds - whatever they are.
+
+Everything that raises in Python is `none` here.  Not modelled: the renaming of the pair in the
+*neighbours'* parent/children fields (`replace_node_in_neighbours`), dimensions, numerical values
+(`expm`, SVD): these are judged by the dense oracle of the harness. -/
 namespace Ptn.C08
+
+/-! ## (i) list order of the splitting -/
+
+/-- One Trotter step after `realise_swaps` / `exponentiate_operator`: the operators it contributes. -/
+structure TStep (α : Type) where
+  before : List α
+  gate : α
+  after : List α
+
+/-- Body of the loop in `exponentiate_splitting`: `extend`, `append`, `extend`. -/
+def stepBody {α : Type} (acc : List α) (s : TStep α) : List α :=
+  ((acc ++ s.before) ++ [s.gate]) ++ s.after
+
+def exponentiateSplitting {α : Type} (steps : List (TStep α)) : List α :=
+  steps.foldl stepBody []
+
+/-! ## (ii) the SWAP matrix -/
+
+abbrev Mat := List (List Nat)
+
+def zeros (n m : Nat) : Mat := List.replicate n (List.replicate m 0)
+
+/-- `M[i, j] = v` -/
+def setEntry (M : Mat) (i j v : Nat) : Mat := M.modify i (fun row => row.set j v)
+
+def entry (M : Mat) (i j : Nat) : Option Nat := (M[i]?).bind (·[j]?)
+
+/-- The condition under which `swap_gate` writes a one. -/
+def swapCond (d i j : Nat) : Bool :=
+  let output_sys1 := i / d
+  let output_sys2 := i % d
+  let input_sys1 := j / d
+  let input_sys2 := j % d
+  output_sys1 == input_sys2 && input_sys1 == output_sys2
+
+/-- Inner loop `for j in range(d**2)`. -/
+def swapRow (d i : Nat) (M : Mat) : Mat :=
+  (List.range (d * d)).foldl (fun M j => if swapCond d i j then setEntry M i j 1 else M) M
+
+/-- `swap_gate(d)` for `d ≥ 1` (the zero matrix, then the double loop). -/
+def swapGate (d : Nat) : Mat :=
+  (List.range (d * d)).foldl (fun M i => swapRow d i M) (zeros (d * d) (d * d))
+
+/-- With `positivity_check`. -/
+def swapGate? (d : Nat) : Option Mat := if d = 0 then none else some (swapGate d)
+
+/-- The digit exchange `(a, b) ↦ (b, a)` on indices `a * d + b`. -/
+def digitSwap (d i : Nat) : Nat := (i % d) * d + i / d
+
+/-- Positions of the ones, row by row. -/
+def onesOf (M : Mat) : List (Nat × Nat) :=
+  (M.zipIdx.map fun (row, i) => (row.zipIdx.filter (fun (v, _) => v == 1)).map fun (_, j) => (i, j)).flatten
+
+/-! ## (iii) leg bookkeeping -/
+
+inductive Leg where
+  | nb (id : Nat)            -- virtual leg toward the neighbour `id`
+  | phys (node k : Nat)      -- `k`-th open (physical) leg of node `node`
+  | gout (k : Nat)           -- `k`-th output leg of the gate
+  | gin (k : Nat)            -- `k`-th input leg of the gate
+  | bond                     -- the leg created by the splitting
+  deriving DecidableEq, Repr
+
+/-- Python `list.insert(i, x)` (the position is clamped to the length). -/
+def pyInsert {α : Type} (l : List α) (i : Nat) (x : α) : List α := l.take i ++ x :: l.drop i
+
+/-- `l` without the entry at position `i` (the list part of `pop(i)`). -/
+def dropAt {α : Type} (l : List α) (i : Nat) : List α := l.take i ++ l.drop (i + 1)
+
+/-- `{id: leg_value + k for leg_value, id in enumerate(ids)}` as an ordered association list. -/
+def enumFrom : Nat → List Nat → List (Nat × Nat)
+  | _, [] => []
+  | k, x :: xs => (x, k) :: enumFrom (k + 1) xs
+
+structure MNode where
+  parent : Option Nat
+  children : List Nat
+  legs : List Leg
+  deriving DecidableEq, Repr
+
+namespace MNode
+
+def nparents (n : MNode) : Nat := if n.parent.isSome then 1 else 0
+def nvirt (n : MNode) : Nat := n.nparents + n.children.length
+def nlegs (n : MNode) : Nat := n.legs.length
+def nopen (n : MNode) : Nat := n.nlegs - n.nvirt
+/-- `list(range(nvirt_legs(), nlegs()))` -/
+def openLegs (n : MNode) : List Nat := List.range' n.nvirt (n.nlegs - n.nvirt)
+
+/-- `GraphNode.neighbour_index` -/
+def neighbourIndex (n : MNode) (id : Nat) : Option Nat :=
+  if n.parent = some id then some 0
+  else if id ∈ n.children then some (n.children.idxOf id + n.nparents)
+  else none
+
+/-- `Node.open_leg_to_parent(parent_id, open_leg)` -/
+def openLegToParent (n : MNode) (pid : Nat) (i : Nat) : Option MNode :=
+  if n.parent.isSome then none                 -- "already has a parent"
+  else if n.nopen = 0 then none                -- `_open_leg_checks`: no open legs
+  else if i < n.nvirt then none                -- `_open_leg_checks`: the leg is not open
+  else match n.legs[i]? with
+    | none => none                             -- `pop`: IndexError
+    | some x => some { n with parent := some pid, legs := pyInsert (dropAt n.legs i) 0 x }
+
+/-- One round of the loop of `open_legs_to_children`: `remove(value)`, `insert(nvirt, value)`,
+    `add_child`. -/
+def childStep (orig : Nat) (m : MNode) (e : Nat × Nat × Leg) : Option MNode :=
+  if e.2.1 < orig then none                    -- "is not open to connect to"
+  else if e.2.2 ∈ m.legs then
+    some { m with legs := pyInsert (m.legs.erase e.2.2) m.nvirt e.2.2, children := m.children ++ [e.1] }
+  else none                                    -- `remove`: ValueError
+
+/-- The loop of `open_legs_to_children` over the looked-up entries. -/
+def childLoop (orig : Nat) : MNode → List (Nat × Nat × Leg) → Option MNode
+  | m, [] => some m
+  | m, e :: es => (childStep orig m e).bind (fun m' => childLoop orig m' es)
+
+/-- `actual_value = {child_id: self._leg_permutation[open_leg] …}` -/
+def lookupLegs (legs : List Leg) : List (Nat × Nat) → Option (List (Nat × Nat × Leg))
+  | [] => some []
+  | (cid, pos) :: ds =>
+    match legs[pos]?, lookupLegs legs ds with
+    | some l, some r => some ((cid, pos, l) :: r)
+    | _, _ => none
+
+/-- `Node.open_legs_to_children(child_dict)` (the dict as an ordered association list). -/
+def openLegsToChildren (n : MNode) (dict : List (Nat × Nat)) : Option MNode :=
+  (lookupLegs n.legs dict).bind (childLoop n.nvirt n)
+
+end MNode
+
+/-- `Node.exchange_open_leg_ranges(range(s1, e1), range(s2, e2))` on the permuted leg list. -/
+def exchangeRanges (l : List Leg) (s1 e1 s2 e2 : Nat) : Option (List Leg) :=
+  let (s1, e1, s2, e2) := if s2 < s1 then (s2, e2, s1, e1) else (s1, e1, s2, e2)
+  let len1 := e1 - s1
+  let len2 := e2 - s2
+  if s2 < e1 then none                          -- assert open_1.stop <= open_2.start
+  else if l.length < s2 + len2 then none        -- `pop`: IndexError
+  else
+    let values2 := (l.drop s2).take len2
+    let l1 := l.take s2 ++ l.drop (s2 + len2)
+    let values1 := (l1.drop s1).take len1
+    let l2 := l1.take s1 ++ l1.drop (s1 + len1)
+    let l3 := l2.take s1 ++ values2 ++ l2.drop s1
+    let difference := s2 - e1
+    let newPosition := s1 + len2 + difference
+    some (l3.take newPosition ++ values1 ++ l3.drop newPosition)
+
+structure LegSpec where
+  parentLeg : Option Nat
+  childLegs : List Nat
+  openLegs : List Nat
+  isRoot : Bool
+  deriving DecidableEq, Repr
+
+/-- `TreeTensorNetwork.legs_before_combination(node1_id, node2_id)` -/
+def legsBeforeCombination (id1 : Nat) (n1 : MNode) (id2 : Nat) (n2 : MNode) :
+    Option (LegSpec × LegSpec) :=
+  let totNvirt := n1.nvirt + n2.nvirt - 2
+  let totNlegs := n1.nlegs + n2.nlegs - 2
+  let open1 := List.range' totNvirt n1.nopen
+  let open2 := List.range' (totNvirt + n1.nopen) (totNlegs - (totNvirt + n1.nopen))
+  let s1 : LegSpec := ⟨none, n1.children, open1, false⟩
+  let s2 : LegSpec := ⟨none, n2.children, open2, false⟩
+  let r : Option (LegSpec × LegSpec) :=
+    if id1 ∈ n2.children then                    -- `node2.is_parent_of(node1_id)`: temp reversed
+      some (s1, { s2 with parentLeg := n2.parent, childLegs := s2.childLegs.erase id1 })
+    else if id2 ∈ n1.children then
+      some ({ s1 with parentLeg := n1.parent, childLegs := s1.childLegs.erase id2 }, s2)
+    else none                                    -- `remove`: ValueError
+  r.map fun p =>
+    if n1.parent.isNone then ({ p.1 with isRoot := true }, p.2)
+    else if n2.parent.isNone then (p.1, { p.2 with isRoot := true })
+    else p
+
+/-- Entries of `l` whose position (counted from `k`) is not in `idx`. -/
+def removeIdxs {α : Type} (idx : List Nat) : Nat → List α → List α
+  | _, [] => []
+  | k, x :: xs => if k ∈ idx then removeIdxs idx (k + 1) xs else x :: removeIdxs idx (k + 1) xs
+
+/-- Labels at the given positions (`none` when one is out of range). -/
+def pick {α : Type} (l : List α) : List Nat → Option (List α)
+  | [] => some []
+  | i :: is => match l[i]?, pick l is with
+    | some x, some r => some (x :: r)
+    | _, _ => none
+
+/-- `numpy.tensordot(a, b, axes=(axa, axb))` on label lists: the legs that remain (those of `a`, then
+    those of `b`) and the pairs that are summed over. -/
+def tensordot (la lb : List Leg) (axa axb : List Nat) : Option (List Leg × List (Leg × Leg)) :=
+  if axa.length ≠ axb.length then none
+  else match pick la axa, pick lb axb with
+    | some xa, some xb => some (removeIdxs axa 0 la ++ removeIdxs axb 0 lb, xa.zip xb)
+    | _, _ => none
+
+/-- `if not parent_node.is_root(): new_node.open_leg_to_parent(parent_node.parent, 0)` -/
+def attachParent (n : MNode) : Option Nat → Option MNode
+  | some pp => n.openLegToParent pp 0
+  | none => some n
+
+/-- `TreeTensorNetwork.contract_nodes(id1, id2, new_identifier)`: the new node. -/
+def contractNodes (id1 : Nat) (n1 : MNode) (id2 : Nat) (n2 : MNode) : Option MNode :=
+  -- determine_parentage
+  let pc : Option (Nat × MNode × Nat × MNode) :=
+    if n2.parent = some id1 then some (id1, n1, id2, n2)
+    else if n1.parent = some id2 then some (id2, n2, id1, n1)
+    else none
+  pc.bind fun (pid, P, cid, C) =>
+  (P.neighbourIndex cid).bind fun ci =>
+  -- _data_contraction
+  (tensordot P.legs C.legs [ci] [0]).bind fun (raw, _) =>
+  -- _create_contracted_node
+  let new0 : MNode := ⟨none, [], raw⟩
+  (attachParent new0 P.parent).bind fun new1 =>
+  let parentChildren := P.children.erase cid
+  let parentChildDict := enumFrom P.nparents parentChildren
+  let childChildrenDict := enumFrom (P.nlegs - 1) C.children
+  let dict := if pid = id1 then parentChildDict ++ childChildrenDict
+              else childChildrenDict ++ parentChildDict
+  (new1.openLegsToChildren dict).bind fun new2 =>
+  if id1 ≠ pid then
+    let nv := new2.nvirt
+    (exchangeRanges new2.legs nv (nv + P.nopen) (nv + P.nopen) new2.nlegs).map
+      fun l => { new2 with legs := l }
+  else some new2
+
+/-- Legs of a gate tensor for `n` sites: outputs first (`NumericOperator.to_tensor`). -/
+def gateLegs (n : Nat) : List Leg := (List.range n).map Leg.gout ++ (List.range n).map Leg.gin
+
+/-- `TreeTensorNetwork.absorb_into_open_legs(node_id, tensor)`; `op` are the legs of `tensor`. -/
+def absorbIntoOpenLegs (n : MNode) (op : List Leg) : Option (MNode × List (Leg × Leg)) :=
+  let nopen := n.nopen
+  if op.length ≠ 2 * nopen then none
+  else
+    let tensorLegs := (List.range nopen).map (· + nopen)
+    (tensordot n.legs op n.openLegs tensorLegs).map fun (l, b) => ({ n with legs := l }, b)
+
+/-- `[self.node.neighbour_index(child_leg) for child_leg in self.child_legs]` -/
+def neighbourIndices (n : MNode) : List Nat → Option (List Nat)
+  | [] => some []
+  | k :: ks => match n.neighbourIndex k, neighbourIndices n ks with
+    | some i, some r => some (i :: r)
+    | _, _ => none
+
+/-- `LegSpecification.find_leg_values()` relative to node `n`. -/
+def LegSpec.findLegValues (s : LegSpec) (n : MNode) : Option (List Nat) :=
+  (neighbourIndices n s.childLegs).map fun kids =>
+    (if s.parentLeg.isSome then [0] else []) ++ kids ++ s.openLegs
+
+/-- `split_nodes(node_id, out_legs, in_legs, splitting_function, out_identifier, in_identifier)`:
+    the out (U) node and the in (V) node. -/
+def splitNode (n : MNode) (outS inS : LegSpec) (outId inId : Nat) : Option (MNode × MNode) :=
+  (outS.findLegValues n).bind fun ov =>
+  (inS.findLegValues n).bind fun iv =>
+  -- the matricisation transposes to `u_legs + v_legs`: must be a permutation of all legs
+  if (ov ++ iv).length ≠ n.nlegs ∨ ¬ (ov ++ iv).Nodup then none else
+  (pick n.legs ov).bind fun ol =>
+  (pick n.legs iv).bind fun il =>
+  let outN0 : MNode := ⟨none, [], ol ++ [Leg.bond]⟩
+  let inN0 : MNode := ⟨none, [], Leg.bond :: il⟩
+  -- _set_in_parent_leg_after_split
+  (match inS.parentLeg with
+    | some pp => inN0.openLegToParent pp 1
+    | none => if inS.isRoot then some inN0 else inN0.openLegToParent outId 0).bind fun inN1 =>
+  -- _find_in_children
+  (if inS.isRoot then
+      (if outS.parentLeg.isSome then none else some ([(outId, 0)] ++ enumFrom 1 inS.childLegs))
+    else if inS.parentLeg.isSome then some ([(outId, 1)] ++ enumFrom 2 inS.childLegs)
+    else some (enumFrom 1 inS.childLegs)).bind fun inDict =>
+  (inN1.openLegsToChildren inDict).bind fun inN2 =>
+  -- _set_out_parent_leg_after_split
+  (match outS.parentLeg with
+    | some pp => outN0.openLegToParent pp 0
+    | none => if outS.isRoot then some outN0
+              else outN0.openLegToParent inId (outN0.nlegs - 1)).bind fun outN1 =>
+  -- _find_out_children
+  (if inS.isRoot || inS.parentLeg.isSome then
+      (if outS.parentLeg.isSome then none else some (enumFrom 1 outS.childLegs))
+    else if outS.isRoot then some ([(inId, outN1.nlegs - 1)] ++ enumFrom 0 outS.childLegs)
+    else (if outS.parentLeg.isSome then some ([(inId, outN1.nlegs - 1)] ++ enumFrom 1 outS.childLegs)
+          else none)).bind fun outDict =>
+  (outN1.openLegsToChildren outDict).bind fun outN2 =>
+  some (outN2, inN2)
+
+structure TwoSiteResult where
+  spec1 : LegSpec
+  spec2 : LegSpec
+  contr : MNode
+  absorbed : MNode
+  binds : List (Leg × Leg)
+  node1 : MNode
+  node2 : MNode
+  deriving Repr
+
+/-- `TEBD._apply_one_trotter_step_two_site` for the operator acting on `(id1, id2)`. -/
+def twoSite (id1 : Nat) (n1 : MNode) (id2 : Nat) (n2 : MNode) : Option TwoSiteResult :=
+  (legsBeforeCombination id1 n1 id2 n2).bind fun (s1, s2) =>
+  (contractNodes id1 n1 id2 n2).bind fun c =>
+  (absorbIntoOpenLegs c (gateLegs c.nopen)).bind fun (a, b) =>
+  (splitNode a s1 s2 id1 id2).bind fun (m1, m2) =>
+  some ⟨s1, s2, c, a, b, m1, m2⟩
+
+/-- `TEBD._apply_one_trotter_step_single_site`. -/
+def singleSite (n : MNode) : Option (MNode × List (Leg × Leg)) :=
+  absorbIntoOpenLegs n (gateLegs n.nopen)
+
+/-- The leg toward the parent, if there is one. -/
+def parentLegs : Option Nat → List Leg
+  | some p => [Leg.nb p]
+  | none => []
+
+/-- The `o` physical legs of node `id`. -/
+def physL (id o : Nat) : List Leg := (List.range o).map (Leg.phys id)
+
+/-- Gate output legs number `s`, …, `s + n - 1`. -/
+def goutL (s n : Nat) : List Leg := (List.range' s n).map Leg.gout
+
+/-- A node in its canonical layout: parent leg, child legs, `o` physical legs. -/
+def mkNode (id : Nat) (parent : Option Nat) (children : List Nat) (o : Nat) : MNode :=
+  ⟨parent, children, parentLegs parent ++ (children.map Leg.nb ++ physL id o)⟩
+
+/-! ### tree level: the child order after a sequence of two-site gates -/
+
+structure TNode where
+  id : Nat
+  parent : Option Nat
+  children : List Nat
+  deriving DecidableEq, Repr
+
+def findNode (t : List TNode) (id : Nat) : Option TNode := t.find? (·.id == id)
+
+def updateNode (t : List TNode) (id : Nat) (m : MNode) : List TNode :=
+  t.map fun x => if x.id == id then { x with parent := m.parent, children := m.children } else x
+
+/-- One two-site gate on `(id1, id2)`, every node carrying one physical leg. -/
+def applyPair (t : List TNode) (id1 id2 : Nat) : Option (List TNode) :=
+  (findNode t id1).bind fun a =>
+  (findNode t id2).bind fun b =>
+  if id1 = id2 then none else
+  (twoSite id1 (mkNode id1 a.parent a.children 1) id2 (mkNode id2 b.parent b.children 1)).map
+    fun r => updateNode (updateNode t id1 r.node1) id2 r.node2
+
+def applyPairs : List TNode → List (Nat × Nat) → Option (List TNode)
+  | t, [] => some t
+  | t, (a, b) :: ps => (applyPair t a b).bind (fun t' => applyPairs t' ps)
+
 end Ptn.C08
